@@ -5,8 +5,8 @@
    cmpl_evaluate_expression.go  call/new      -> [record_site]  (atv := at(-1) unless the
                                                  callee is an identifier, dot or bracket node)
    type_function.go  call                     -> [init_frame]   (the frame of a fresh scope)
-   cmpl_evaluate.go  cmplEvaluateNodeProgram  -> [EvEvalEnter]  (frame.file := program file,
-                                                 never restored after a direct eval)
+   cmpl_evaluate.go  cmplEvaluateNodeProgram  -> [EvEvalEnter] / [EvEvalLeave]  (frame.file := program
+                                                 file; a direct eval gives the caller's file back)
    error.go          newError                 -> [new_error]    (pop, at, the limit loop)
    error.go          frame.location           -> [location]
    error.go          ottoError.format         -> [format]
@@ -62,14 +62,13 @@ Fixpoint fileset_bases (files : list (list Z)) (base : Z) : list (Z * list Z) :=
   | [] => []
   | s :: r => (base, s) :: fileset_bases r (base + zlen s + 1)
   end.
-(* FileSet.Position: the first file with idx <= base+len, then
-   file.Position(idx - base), which subtracts the base a second time *)
+(* FileSet.Position: the first file with idx <= base+len, then file.Position(idx) *)
 Fixpoint fileset_position_in (l : list (Z * list Z)) (idx : Z) (k : Z) : option (Z * Z * Z) :=
   match l with
   | [] => None
   | (base, s) :: r =>
       if idx <=? base + zlen s then
-        match file_position base s (idx - base) with
+        match file_position base s idx with
         | Some (ln, c) => Some (k, ln, c)
         | None => None
         end
@@ -124,14 +123,13 @@ Inductive callform := KIdent | KDot | KBracket | KOther.
 
 Record fixes := mkFixes {
   fx_site : bool;   (* record a call site for every callee form *)
-  fx_eval : bool;   (* restore frame.file when a direct eval returns *)
   fx_at   : bool;   (* every raise site of a script frame passes its position *)
   fx_nofile : bool; (* functions made by the Function constructor carry their source *)
   fx_term : bool;   (* CR, U+2028, U+2029 are line terminators for run-time positions *)
   fx_char : bool    (* columns count characters, not bytes *)
 }.
-Definition nofix := mkFixes false false false false false false.
-Definition allfix := mkFixes true true true true true true.
+Definition nofix := mkFixes false false false false false.
+Definition allfix := mkFixes true true true true true.
 
 (* cmplEvaluateNodeCallExpression / NewExpression: atv *)
 Definition record_site (fx : fixes) (k : callform) (idx : Z) : Z :=
@@ -165,8 +163,8 @@ Definition init_frame (fx : fixes) (k : lvkind) : frame :=
   | LvNative n => mkFrame true (-1) n 0
   end.
 
-(* the frame together with the files saved by pending direct evals (only the
-   repaired interpreter uses the saved files) *)
+(* the frame together with the files saved by pending direct evals (the deferred
+   restore of cmplEvaluateNodeProgram(node, true)) *)
 Definition ev_step (fx : fixes) (st : frame * list Z) (e : event) : frame * list Z :=
   let '(fr, stk) := st in
   match e with
@@ -175,7 +173,7 @@ Definition ev_step (fx : fixes) (st : frame * list Z) (e : event) : frame * list
   | EvEvalLeave =>
       match stk with
       | [] => (fr, [])
-      | s :: stk' => ((if fx_eval fx then set_file fr s else fr), stk')
+      | s :: stk' => (set_file fr s, stk')
       end
   end.
 
@@ -321,8 +319,8 @@ Definition model_class (kind : Z) : Z :=
   | 23 => 6                   (* in: right side not an object *)
   | 24 => 6                   (* JSON.stringify of a cyclic structure *)
   | 25 => 5                   (* JSON.parse of malformed text *)
-  | 26 => 6                   (* new RegExp of a malformed pattern: TransformRegExp error branch *)
-  | 27 => 5                   (* RegExp with a repeated flag *)
+  | 26 => 5                   (* new RegExp of a pattern otto's own scanner rejects (re2pattern == "") *)
+  | 27 => 5                   (* RegExp with a repeated or unknown flag *)
   | 28 => 7                   (* decodeURI / decodeURIComponent of malformed text *)
   | 29 => 6                   (* Object.defineProperty/create/keys/getPrototypeOf on a non-object *)
   | 30 => 6                   (* Function.prototype.call/apply/bind on a non-callable *)
@@ -385,8 +383,8 @@ Definition model_throws (fn : Z) (a : argval) : bool :=
   match fn with
   | 1 => match a with AUndef => false | _ => ext_lt i 2 || ext_gt i 36 end      (* radixArgument.IsDefined() *)
   | 2 => ext_gt i 20 || ext_lt i 0
-  | 3 => match a with AUndef => false | _ => ext_lt i 0 end                     (* no upper check *)
-  | 4 => match a with AUndef => false | _ => ext_lt i 1 end                     (* no upper check *)
+  | 3 => match a with AUndef => false | _ => ext_lt i 0 || ext_gt i 20 end
+  | 4 => match a with AUndef => false | _ => ext_lt i 1 || ext_gt i 21 end
   | 5 => match a with AUndef => false | _ => negb (is_array_length a) end
   | 6 => negb (is_array_length a)
   | _ => false
